@@ -260,19 +260,31 @@ pub fn run(seed: u64, thorough: bool, which: u32, out: &mut Out) {
         }
         record(&p, which, out);
     }
-    if thorough {
-        // exhaustive: 2 variables over -2..=2, every ordered pair of constraints from a fixed list
-        let v = |k: usize| T::Var(k);
-        let cs: Vec<PG> = vec![
-            PG::PlusFd(v(0), v(1), v(0)), PG::PlusFd(v(0), v(0), v(1)), PG::PlusFd(v(0), v(1), T::Num(1)),
-            PG::MinusFd(v(0), v(1), v(1)), PG::TimesFd(v(0), v(1), T::Num(-2)), PG::TimesFd(v(0), v(0), v(1)),
-            PG::TimesFd(v(0), v(1), v(0)), PG::LteFd(v(0), v(1)), PG::LtFd(v(1), v(0)), PG::DiseqFd(v(0), v(1)),
-            PG::DistinctFd(T::list(vec![v(0), v(1), T::Num(0)])), PG::Eq(v(0), v(1)), PG::Eq(v(0), T::Num(-1)),
-        ];
+    // SMALL SCOPE, EXHAUSTIVE (both tiers): 2 variables, every ordered pair of constraints from a fixed alphabet, under
+    // 3 placements of the domain goals and 2 (quick) / 4 (thorough) choices of domains — the chains of events that random
+    // conjunctions reach rarely (a collapse inside distinctfd waking another constraint, a unification binding both
+    // variables, a bound operand met at posting time …) are all in here when they fit in two constraints.
+    let v = |k: usize| T::Var(k);
+    let n = |k: isize| T::Num(k);
+    let cs: Vec<PG> = vec![
+        PG::PlusFd(v(0), v(1), v(0)), PG::PlusFd(v(0), v(0), v(1)), PG::PlusFd(v(0), v(1), n(1)), PG::PlusFd(v(0), n(1), v(1)),
+        PG::MinusFd(v(0), v(1), v(1)), PG::MinusFd(v(0), v(1), n(1)), PG::TimesFd(v(0), v(1), n(-2)), PG::TimesFd(v(0), v(0), v(1)),
+        PG::TimesFd(v(0), v(1), v(0)), PG::TimesFd(v(0), v(1), n(0)), PG::LteFd(v(0), v(1)), PG::LteFd(v(1), v(0)), PG::LtFd(v(1), v(0)),
+        PG::LteFd(n(1), v(0)), PG::LteFd(v(1), n(0)), PG::DiseqFd(v(0), v(1)), PG::DiseqFd(v(0), n(0)),
+        PG::DistinctFd(T::list(vec![v(0), v(1), n(0)])), PG::DistinctFd(T::list(vec![n(2), v(1), v(0)])), PG::DistinctFd(T::list(vec![v(0), v(1)])),
+        PG::Eq(v(0), v(1)), PG::Eq(v(1), v(0)), PG::Eq(v(0), n(-1)), PG::Eq(T::list(vec![v(0), v(1)]), T::list(vec![n(0), n(2)])),
+        PG::Eq(T::list(vec![n(1), n(1)]), T::list(vec![v(0), v(1)])),
+    ];
+    let dom_choices: Vec<(D, D)> = if thorough {
+        vec![(D::I(-2, 2), D::I(-2, 2)), (D::V(vec![-2, 0, 2]), D::I(0, 2)), (D::I(0, 1), D::V(vec![-1, 1, 2])), (D::V(vec![0, 2]), D::I(-1, 2))]
+    } else {
+        vec![(D::I(-2, 2), D::I(-2, 2)), (D::V(vec![-2, 0, 2]), D::I(0, 2))]
+    };
+    for (dx, dy) in &dom_choices {
         for a in &cs {
             for b in &cs {
                 for order in 0..3 {
-                    let doms = vec![PG::InFd(v(0), D::I(-2, 2)), PG::InFd(v(1), D::I(-2, 2))];
+                    let doms = vec![PG::InFd(v(0), dx.clone()), PG::InFd(v(1), dy.clone())];
                     let body = match order {
                         0 => vec![doms[0].clone(), doms[1].clone(), a.clone(), b.clone()],
                         1 => vec![a.clone(), doms[0].clone(), b.clone(), doms[1].clone()],
@@ -283,7 +295,27 @@ pub fn run(seed: u64, thorough: bool, which: u32, out: &mut Out) {
                 }
             }
         }
-        out.exhaustive = true;
-        out.notes.push("thorough: every ordered pair of 13 constraints over 2 variables in -2..=2 under 3 domain placements".into());
     }
+    // … and with a HIDDEN pair: the query variable q, two variables that are not part of the query, every constraint pair
+    // of a smaller alphabet over them (hidden variables are labelled under onceo: one answer per q value that has a completion)
+    let hs: Vec<PG> = vec![
+        PG::TimesFd(v(1), v(2), n(4)), PG::TimesFd(v(1), v(2), n(-2)), PG::PlusFd(v(1), v(2), v(0)), PG::PlusFd(v(0), v(1), v(2)),
+        PG::LteFd(v(1), v(2)), PG::LteFd(v(0), v(1)), PG::DiseqFd(v(1), v(2)), PG::DiseqFd(v(0), v(2)),
+        PG::DistinctFd(T::list(vec![v(0), v(1), v(2)])), PG::Eq(v(1), v(2)), PG::TimesFd(v(1), v(1), v(2)),
+    ];
+    for a in &hs {
+        for b in &hs {
+            for order in 0..2 {
+                let doms = vec![PG::InFd(v(0), D::I(0, 1)), PG::InFd(v(1), D::I(-3, 2)), PG::InFd(v(2), D::I(-3, 2))];
+                let body = match order {
+                    0 => vec![doms[0].clone(), doms[1].clone(), doms[2].clone(), a.clone(), b.clone()],
+                    _ => vec![a.clone(), doms[1].clone(), doms[0].clone(), b.clone(), doms[2].clone()],
+                };
+                out.stat("exhaustive_hidden_pairs");
+                record(&Prog { nvars: 3, nq: 1, take: 0, body, raw: false }, which, out);
+            }
+        }
+    }
+    out.exhaustive = true;
+    out.notes.push(format!("every ordered pair of {} constraints over 2 variables under 3 domain placements and {} domain choices; every ordered pair of {} constraints over a query variable and two hidden variables under 2 placements", cs.len(), dom_choices.len(), hs.len()));
 }
